@@ -46,6 +46,8 @@ type Gate struct {
 	NotSigG   int64 // the signalling goroutine must differ from this one
 	SameID    bool
 	Timeout   time.Duration
+	Skip      int // arrivals of the waiter at WaitPoint that pass before it is parked
+	SigSkip   int // matching events that are ignored before one releases the gate
 
 	mu        sync.Mutex
 	ch        chan struct{}
@@ -195,6 +197,11 @@ func (t *Tracer) Handle(point, id string) {
 				g.mu.Unlock()
 				continue
 			}
+			if g.SigSkip > 0 {
+				g.SigSkip--
+				g.mu.Unlock()
+				continue
+			}
 			g.Signalled = true
 			if !g.waiting {
 				g.earlySig = true
@@ -210,6 +217,11 @@ func (t *Tracer) Handle(point, id string) {
 		}
 		g.mu.Lock()
 		if g.used {
+			g.mu.Unlock()
+			continue
+		}
+		if g.Skip > 0 {
+			g.Skip--
 			g.mu.Unlock()
 			continue
 		}
